@@ -177,10 +177,10 @@ def long_hosts(n):
     return b",".join(hosts)
 
 
-def gen_line(r, names, big=True, sub=b"", absdir=None):
+def gen_line(r, names, big=True, sub=b"", absdir=None, fatal=False):
     k = r.weighted([("host", 8), ("range", 4), ("comment", 2), ("trail_comment", 2), ("blank", 2), ("include", 6), ("bad_include", 1),
                     ("long", 1 if big else 0), ("indented_include", 1), ("multi", 2), ("long_small", 1), ("noblank_include", 1),
-                    ("cr_include", 1), ("asis_include", 2), ("long_rel_include", 1 if big else 0), ("hash_include_comment", 1)])
+                    ("cr_include", 1), ("asis_include", 2), ("long_rel_include", 1 if fatal else 0), ("hash_include_comment", 1)])
     if k == "host":
         return hlgen.gen_text(r, ("alpha", "alnum", "dash", "dot"))
     if k == "range":
@@ -207,7 +207,7 @@ def gen_line(r, names, big=True, sub=b"", absdir=None):
         # names with a leading / ./ ../ are taken as they are, i.e. relative to the current directory
         n = r.choice(names)
         p = (sub + b"/" if sub else b"") + n
-        form = r.weighted([("dot", 4), ("abs", 2 if absdir else 0), ("dotdot", 1), ("dotdot_missing", 1)])
+        form = r.weighted([("dot", 4), ("abs", 2 if absdir else 0), ("dotdot", 1), ("dotdot_missing", 1 if fatal else 0)])
         if form == "dot":
             return b"#include ./" + p
         if form == "abs":
@@ -235,8 +235,9 @@ SUBDIRS_B = [b"", b"", b"d", b"d/e", b"a:b", b"b[1:2]k"]
 
 def gen_files(r, sub, names, big, absdir):
     fs = {}
+    fatal = r.chance(1, 10)          # only some trees contain lines that make the read fail
     for n in names:
-        lines = [gen_line(r, names, big, sub, absdir) for _ in range(r.range(0, 7))]
+        lines = [gen_line(r, names, big, sub, absdir, fatal) for _ in range(r.range(0, 7))]
         body = b"\n".join(lines)
         if lines and not r.chance(1, 5):
             body += b"\n"
@@ -250,7 +251,7 @@ def gen_tree(r, absdir):
     names = NAMES[:r.range(1, 5)]
     fs = gen_files(r, sub, names, True, absdir)
     top = (sub + b"/" if sub else b"") + r.choice(names)
-    if r.chance(1, 12):
+    if r.chance(1, 20):
         fs[top] += b"#include nosuchfile\n"
     if r.chance(1, 10):
         top = b"./" + top
@@ -278,7 +279,7 @@ def gen_cmdline(r, absdir):
     items = []
     nsrc = r.weighted([(0, 1), (1, 3), (2, 4), (3, 4), (4, 2), (5, 1)])
     for _ in range(nsrc):
-        k = r.weighted([("word", 5), ("range", 2), ("file", 6), ("stdin", 3), ("excluded", 1), ("missing", 1), ("exfile", 1), ("spaced", 1)])
+        k = r.weighted([("word", 10), ("range", 4), ("file", 12), ("stdin", 6), ("excluded", 2), ("missing", 1), ("exfile", 2), ("spaced", 2)])
         if k == "word":
             items.append(hlgen.gen_text(r, ("alpha", "alnum", "dash", "dot")))
         elif k == "range":
@@ -318,7 +319,7 @@ def gen_cmdline(r, absdir):
             cur = []
     if cur:
         args.append(b",".join(cur))
-    wk = r.weighted([("unset", 5), ("file", 4), ("missing", 1), ("stdin", 1)])
+    wk = r.weighted([("unset", 10), ("file", 8), ("missing", 1), ("stdin", 2)])
     wcoll = None if wk == "unset" else r.choice(tops) if wk == "file" else b"nosuchwcoll" if wk == "missing" else b"-"
     if wcoll == b"-" and not stdin:
         stdin = b"fromstdin1\n#include " + r.choice(top_names) + b"\n"
@@ -357,6 +358,7 @@ def exhaustive_orders():
 # running cases
 # =====================================================================================================================
 def write_tree(d, fs):
+    os.makedirs(d, exist_ok=True)
     for p, c in fs.items():
         fp = os.path.join(d.encode(), p)
         os.makedirs(os.path.dirname(fp), exist_ok=True)
@@ -624,7 +626,7 @@ def run(ctx):
     quick = ctx.tier == "quick"
     cases = []
     cdir = os.path.join(vlib.VERIF, "corpus", PROP)
-    if os.path.isdir(cdir):
+    if os.path.isdir(cdir) and not os.environ.get("C10_SKIP_CORPUS"):      # (switch used to test the generators alone)
         for fn in sorted(os.listdir(cdir)):
             if fn.endswith(".json"):
                 c = from_json(json.load(open(os.path.join(cdir, fn))))
@@ -632,11 +634,11 @@ def run(ctx):
                 cases.append(c)
     ncorpus = len(cases)
     rA, rB = ctx.rng("trees"), ctx.rng("cmdlines")
-    for _ in range(400 if quick else 8000):
+    for _ in range(500 if quick else 10000):
         d = eng.new_dir()
         fs, top = gen_tree(rA, d.encode())
         cases.append({"engine": "A", "fs": fs, "top": top, "dir": d})
-    for _ in range(500 if quick else 6000):
+    for _ in range(700 if quick else 10000):
         d = eng.new_dir()
         fs, args, stdin, wcoll = gen_cmdline(rB, d.encode())
         cases.append({"engine": "B", "fs": fs, "args": args, "stdin": stdin, "wcoll": wcoll, "dir": d})
